@@ -149,11 +149,12 @@ TimeoutCore(o) ==
   /\ UNCHANGED <<alloc, reqQ, maps, itemQ, itemTx, kind, oid, target, tmo, adapted, sres, envv, hist, now>>
 Timeout(o) == TimeGuard(o) /\ TimeoutCore(o)
 
-(* the caller drops the future of a waiting single operation (cancellation): the reply receiver goes away, nothing else
-   happens - in particular no ID scrub is sent.  Not part of any listed property; see DESIGN.md 12.4 *)
+(* the caller drops the future of a waiting single operation (cancellation: select!, an outer timeout): the reply receiver
+   goes away, nothing else happens - in particular no ID scrub is sent.  Phase "gone": the library was never told.
+   Not part of any listed property; see DESIGN.md 12.4 *)
 Cancel(o) ==
   /\ AllowCancel /\ phase[o] = "wait" /\ kind[o] = "single"
-  /\ phase' = [phase EXCEPT ![o] = "fail"]
+  /\ phase' = [phase EXCEPT ![o] = "gone"]
   /\ reply' = [reply EXCEPT ![o] = R("none")]
   /\ deadline' = [deadline EXCEPT ![o] = NoDeadline]
   /\ UNCHANGED <<alloc, queues, maps, itemQ, itemTx, itemRx, kind, oid, target, tmo, adapted, sstate, sres, envv, hist, now>>
@@ -227,8 +228,16 @@ FinishFailed(o) ==
   /\ sstate' = [sstate EXCEPT ![o] = "Closed"]
   /\ UNCHANGED <<alloc, reqQ, maps, chans, phase, kind, oid, target, tmo, adapted, sres, deadline, envv, hist, now>>
 
+(* a search stream is dropped without finish(): the item receiver goes away, no scrub is sent (SearchStream has no Drop) *)
+StreamDrop(o) ==
+  /\ AllowCancel /\ phase[o] = "stream"
+  /\ phase' = [phase EXCEPT ![o] = "gone"]
+  /\ itemRx' = [itemRx EXCEPT ![o] = FALSE]
+  /\ UNCHANGED <<alloc, queues, maps, reply, itemQ, itemTx, kind, oid, target, tmo, adapted, sstate, sres, deadline, envv, hist, now>>
+
 (* every handle, stream and adapter clone has been dropped *)
-NobodyActive == \A o \in Ops : phase[o] \in {"idle", "done", "fail"}
+Terminal == {"idle", "done", "fail", "gone"}
+NobodyActive == \A o \in Ops : phase[o] \in Terminal
 DropHandles ==
   /\ ~hdrop /\ NobodyActive
   /\ hdrop' = TRUE
@@ -398,7 +407,7 @@ Tick == ~TimerDue /\ TickCore
 KnownIds == {oid[p] : p \in Ops} \ {0}
 CallerStep == \E o \in Ops : RecvReply(o) \/ ReplyDropped(o) \/ Timeout(o)
                              \/ NextItem(o) \/ NextDone(o) \/ NextClosed(o) \/ NextTimeout(o) \/ NextAbsorb(o)
-UserStep   == \E o \in Ops : NextCall(o) \/ Finish(o) \/ Cancel(o)      \* FinishFailed is unreachable through the public API
+UserStep   == \E o \in Ops : NextCall(o) \/ Finish(o) \/ Cancel(o) \/ StreamDrop(o)      \* FinishFailed is unreachable through the public API
 DriverStep == DrvScrub \/ DrvOp \/ DrvRecv \/ DrvRecvBad \/ DrvEof \/ DrvReqClosed
 StartStep  == \E o \in Ops, k \in {"single", "search", "abandon", "unbind"}, t \in Tmo, a \in BOOLEAN, tg \in KnownIds \cup {0} :
                  /\ k \in Kinds[o]
@@ -443,10 +452,15 @@ TimeoutExact == AbstractTime \/ \A o \in Ops : Waiting(o) => now <= deadline[o] 
 TimeoutKeepsConn == [][(\E o \in Ops : Timeout(o) \/ NextTimeout(o)) => drv' = drv]_vars
 
 (* ---- C13 ---- *)
-Quiescent == /\ \A o \in Ops : phase[o] \in {"idle", "done", "fail"}
+Quiescent == /\ \A o \in Ops : phase[o] \in Terminal
              /\ reqQ = <<>> /\ scrubQ = <<>> /\ s2c = <<>> /\ drv = "run" /\ net = "up"
-NoLeak == Quiescent => (used = {} /\ resmap = <<>> /\ seamap = <<>>)
-MapsSubsetUsed == drv = "run" => (DOMAIN resmap \cup DOMAIN seamap) \subseteq (used \cup {oid[o] : o \in {p \in Ops : phase[p] \in {"done","fail"}}})
+NoGhosts == \A o \in Ops : phase[o] # "gone"      \* every operation ended in a way the library was told about
+NoLeak == (Quiescent /\ NoGhosts) => (used = {} /\ resmap = <<>> /\ seamap = <<>>)
+(* observation (expected to fail, DESIGN.md 12.4): what operations the caller walked away from leave behind once the server
+   has finally answered them *)
+GhostsAnswered == \A r \in c2s : r.fin
+GhostsRelease == (Quiescent /\ GhostsAnswered) => (used = {} /\ resmap = <<>> /\ seamap = <<>>)
+MapsSubsetUsed == drv = "run" => (DOMAIN resmap \cup DOMAIN seamap) \subseteq (used \cup {oid[o] : o \in {p \in Ops : phase[p] \in {"done","fail","gone"}}})
 
 (* ---- C10 at this level ---- *)
 StreamOK == \A o \in Ops : /\ sstate[o] = "Done" => sres[o].typ = "done"
@@ -459,7 +473,7 @@ FailFast == (~DrvAlive) => \A o \in Ops : /\ (phase[o] = "wait" => reply[o].st #
 (* nothing is invented: see Routing; delivered results survive: a value in a one-shot stays until received *)
 DeliveredSurvives == [][\A o \in Ops : (reply[o].st = "val" /\ phase'[o] = "wait") => reply'[o] = reply[o]]_vars
 UnbindCloses == \A r \in c2s : r.kind = "unbind" => net # "up"
-NobodyWaits == \A o \in Ops : phase[o] \in {"idle", "done", "fail", "stream"}
+NobodyWaits == \A o \in Ops : phase[o] \in Terminal \cup {"stream"}
 Fair == WF_vars(CallerStep) /\ WF_vars(DriverStep)
 FairSpec == Spec /\ Fair
 Termination == [](net \in {"eof", "reset"} => <>(~DrvAlive /\ NobodyWaits))
